@@ -408,7 +408,7 @@ def rule_tempoform(ctx):
             ha = [z for z in (a[0].a[1], a[0].a[2]) if z is not w][0]
             hb = [z for z in (b[0].a[1], b[0].a[2]) if not (z.op == "bin" and z.a[0] == "-")][0]
             good = ha.op == "sub" and hb.op == "sub" and ha.a[0] is hb.a[0] and tm.is_const(ha.a[1], 0) and tm.is_const(hb.a[1], 1)
-            hits = ha.a[0]
+            hits = ha.a[0] if ha.op == "sub" else None
     indexed = None
     if not good and len(terms) == 2 and len(a) == 1 and len(b) == 1:
         # the two hit values written out per index: the same expression in reference_tempi[0] and reference_tempi[1]
@@ -843,6 +843,9 @@ def rule_contfresh(ctx):
 
     # the per-variation scope: a `for` loop over the variations, or a comprehension over them whose element calls a helper
     scopes = {x[1] for st in s.sites for x in st.pc if x[0] == "loop" and len(x) > 2 and hasattr(x[2], "op") and over_variations(x[2])}
+    loops_ = [x for x in scopes if x in s.loops]
+    if len(loops_) == 1:
+        scopes = set(loops_)  # (a comprehension that merely measures the variations is not the scoring scope)
     need(len(scopes) == 1, R, "continuity: loop over the metrical variations not found")
     L = next(iter(scopes))
     written = {}
